@@ -30,11 +30,11 @@ TIERS = {
     'quick': {'shards': 14, 'random': 1700, 'timeout': 900, 'min_cases': 1000, 'max_timeouts': 5,
               'require_branches': ['shape:polygon', 'shape:bezier', 'shape:arcs', 'orientation:cw', 'orientation:ccw',
                                    'enclosed:True', 'enclosed:False', 'contained:True', 'contained:False',
-                                   'relation:reversed', 'shape:self-intersecting']},
+                                   'relation:reversed', 'shape:self-intersecting', 'probe:axis-parallel']},
     'thorough': {'shards': 14, 'random': 90000, 'timeout': 3400, 'min_cases': 50000, 'max_timeouts': 100,
                  'require_branches': ['shape:polygon', 'shape:bezier', 'shape:arcs', 'orientation:cw', 'orientation:ccw',
                                       'enclosed:True', 'enclosed:False', 'contained:True', 'contained:False',
-                                      'relation:reversed', 'shape:self-intersecting']},
+                                      'relation:reversed', 'shape:self-intersecting', 'probe:axis-parallel']},
 }
 CASE_TIMEOUT = 30
 EPS = gen.EPS
@@ -380,8 +380,16 @@ def run_case(ctx, case):
         if not (abs(asx - sx * sy * a0) <= 1e-9 * size * size * abs(sx * sy) + 1e-12):
             ctx.violation('relation/scaled', 'area does not scale by the determinant', {'a': float(a0), 'scaled': float(asx),
                                                                                         'det': sx * sy})
+    xs = [b for sg in p for b in (sg.bbox() if type(sg).__name__ == 'Arc' else
+                                  (lambda q: (min(z.real for z in q), max(z.real for z in q),
+                                              min(z.imag for z in q), max(z.imag for z in q)))(sg.bpoints()))]
+    far_y = max(xs[3::4]) + size
+    far_x = min(xs[0::4]) - size
     for z in case['pts']:
-        for o in case['outs']:
+        # general probes, and the exactly vertical / exactly horizontal ones users write by hand
+        for o in case['outs'] + [[z[0], far_y], [far_x, z[1]]]:
+            if o[0] == z[0] or o[1] == z[1]:
+                ctx.branch('probe:axis-parallel')
             try:
                 P.path_encloses_pt(complex(*z), complex(*o), p)
             except AssertionError:
